@@ -272,6 +272,17 @@ func c13ActStr(a client.Action) string {
 	return strings.Join(f, ",")
 }
 
+// c13Day0: 00:00 UTC of the first of the four days a case plays in. Half of the cases stay in the middle of June 2023;
+// the others cross the end of a 30-day month, of a 31-day month, of February in a leap year, or of a year.
+func c13Day0(r *rand.Rand) int64 {
+	if r.Intn(2) == 0 {
+		return 1686787200 // 2023-06-15, a Thursday
+	}
+	d := pick(r, []time.Time{time.Date(2023, 6, 29, 0, 0, 0, 0, time.UTC), time.Date(2023, 10, 30, 0, 0, 0, 0, time.UTC),
+		time.Date(2024, 2, 27, 0, 0, 0, 0, time.UTC), time.Date(2023, 12, 30, 0, 0, 0, 0, time.UTC), time.Date(2023, 2, 27, 0, 0, 0, 0, time.UTC)})
+	return d.Unix()
+}
+
 func c13Gen(r *rand.Rand, n int, tier string) []string {
 	var out []string
 	vals := []float64{0, 1, 2, 5, 5, 10, -1, 0.5, math.Copysign(0, -1), math.Inf(1), math.NaN(), 1e300, 5e-324}
@@ -283,6 +294,8 @@ func c13Gen(r *rand.Rand, n int, tier string) []string {
 	for i := 0; i < n; i++ {
 		rule := client.Rule{ID: "rule"}
 		hasSched := false
+		// the four days the case plays in: mid-month, or across the end of a month, of February in a leap year, of a year
+		day0 := c13Day0(r)
 		nc := r.Intn(4)
 		if r.Intn(12) == 0 {
 			nc = 0
@@ -316,6 +329,11 @@ func c13Gen(r *rand.Rand, n int, tier string) []string {
 				}
 				if r.Intn(4) == 0 {
 					c.Dates = []string{pick(r, []string{"2024-02-29", "2023-06-15", "2023-06-16"})}
+				} else if r.Intn(3) == 0 {
+					// one or two of the days the case plays in (windows that wrap past midnight then straddle two dates)
+					for k := 0; k < 1+r.Intn(2); k++ {
+						c.Dates = append(c.Dates, time.Unix(day0+int64(r.Intn(4))*86400, 0).UTC().Format("2006-01-02"))
+					}
 				}
 				if r.Intn(10) == 0 {
 					c.Start = "25:xx"
@@ -370,7 +388,7 @@ func c13Gen(r *rand.Rand, n int, tier string) []string {
 		}
 		rs := hxs(rule.ID) + "," + b01(rule.Active) + "," + hxs(rule.Error) + "/" + joinListSep(cs, "+") + "/" + joinListSep(as, "+") + "/" + joinListSep(is, "+")
 		// events
-		base := int64(1686800000) * 1e9 // 2023-06-15 03:33:20 UTC
+		base := (day0 + 12800) * 1e9 // 03:33:20 UTC on the first day
 		var evs []string
 		for e := 0; e < 1+r.Intn(6); e++ {
 			now := base + int64(r.Intn(4*86400))*1e9
@@ -384,7 +402,7 @@ func c13Gen(r *rand.Rand, n int, tier string) []string {
 				}
 				var h, m int
 				if _, err := fmt.Sscanf(pick(r, hm), "%d:%d", &h, &m); err == nil {
-					day := int64(1686787200) + int64(r.Intn(4))*86400 // 2023-06-15 00:00:00 UTC and the next three days
+					day := day0 + int64(r.Intn(4))*86400 // 00:00:00 UTC of the first day or one of the next three
 					off := pick(r, []int64{-1800, -900, -60, -1, 0, 1, 60, 900, 1799})
 					now = (day + int64(h)*3600 + int64(m)*60 + off) * 1e9
 				}
